@@ -24,7 +24,13 @@ def parse_variant(script):
 def decide(ctx, cases, drv_prop="C02", fd3=False):
     """cases: list of (tag, prog, raw_esac). Runs every program in brush and bash and through the Lean driver
     (`<impl> | <bash spec> | D=<guard clauses>`), classifies per DESIGN.md section 4. Returns (scripts, results)."""
-    scripts = [flowgen.render(p, raw_esac=raw, fd3=fd3) for _, p, raw in cases]
+    # seeded random programs are rendered with semantics-preserving decorations half of the time (the models
+    # see the same program; brush goes through "compound command with redirects", newline separators, `function f`)
+    def deco_of(i, tag):
+        if not tag.startswith("rand") or i % 2:
+            return None
+        return (ctx.seed << 20) + i
+    scripts = [flowgen.render(p, raw_esac=raw, fd3=fd3, deco=deco_of(i, tag)) for i, (tag, p, raw) in enumerate(cases)]
 
     def one(s):
         return lib.run_both(s, timeout=20)
